@@ -10,10 +10,10 @@ CONSTANTS
   GNL2 = 2
   GNC = 1
   GNRs = {1, 2, 3}
-  GCoarse = 2
-  GThin2 = 3
-  GStride = 60
-  GStrideM = 12
-  GStrideN = 40
+  GCoarse = 5
+  GThin2 = 5
+  GStride = 20
+  GStrideM = 2
+  GStrideN = 20
   GRunLen = 50
-  GRunStride = 101
+  GRunStride = 150
